@@ -112,6 +112,7 @@ macro_rules! step_ite {
         #[kani::unwind(3)]
         fn $name() {
             let mut s = setup_n(RANK_ITE, $mi, AL_ITE);
+            s.cache.miss_arity = 3;
             let f = sym::any_edge(&s, s.init_c.get());
             let g = sym::any_edge(&s, s.init_c.get());
             let h = sym::any_edge(&s, s.init_c.get());
